@@ -447,6 +447,8 @@ func init() {
 	add("C09.byte.slowwide", "C09.byte", bin, "b := [1]byte{byte(n)}", "b := [2]byte{byte(n)}", "slow-reader")
 	add("C09.byte.nilguard", "C09.byte", bin, "\t\t\tif bs == nil {\n\t\t\t\tbreak\n\t\t\t}\n", "", "fast-nil")
 	add("C09.byte.nilresult", "C09.byte", bin, "\t\tif bs != nil {\n\t\t\treturn bitio.NewBitReader(bs.Bytes(), -1), nil", "\t\tif bs == nil {\n\t\t\treturn bitio.NewBitReader(bs.Bytes(), -1), nil", "fast-nil")
+	add("C09.accept.zerohoist", "C09.accept", bin, "\t\tif inArray {\n\t\t\tif bi.Cmp", "\t\tif bi.BitLen() == 0 {\n\t\t\tvar z0 [1]byte\n\t\t\treturn bitio.NewBitReader(z0[:], 1), nil\n\t\t}\n\t\tif inArray {\n\t\t\tif bi.Cmp", "member-byte")
+	add("C09.accept.membersign", "C09.accept", bin, "\t\tif inArray {\n\t\t\tif bi.Cmp", "\t\tif inArray && bi.Sign() != 0 {\n\t\t\tif bi.Cmp", "member-byte")
 	add("C09.accept.rrlen", "C09.accept", bin, "rr := make([]bitio.ReadAtSeeker, 0, len(vv))", "rr := make([]bitio.ReadAtSeeker, len(vv))", "toBitReaderEx:concat")
 	add("C09.unit.keypad", "C09.unit", bin, "return Binary{br: b.br, r: b.r, unit: 1}", "return Binary{br: b.br, r: b.r, unit: 1, pad: b.pad}", "JQValueKey:bits")
 	add("C09.unit.slicepad", "C09.unit", bin, "\t\tunit: b.unit,\n\t}\n}\nfunc (b Binary) JQValueKey", "\t\tunit: b.unit,\n\t\tpad:  b.pad,\n\t}\n}\nfunc (b Binary) JQValueKey", "JQValueSlice")
